@@ -44,7 +44,7 @@ def shard_name(sh):
 def budget_after_build(ctx):
     """bin/check starts the clock before it (re)builds libsimgrid; after an edit of /repo that build can take longer than
     the whole quick budget. The exploration budget is counted from the end of the build instead."""
-    if time.time() - ctx.t0 > 10:
+    if time.time() - ctx.t0 > 45:
         b = os.environ.get("VERIF_BUDGET_S")
         ctx.deadline = common.Deadline(float(b) if b else (150 if ctx.quick else 1200))
         common.log("lmmx: %.0fs spent building before the check started; exploration budget restarted" % (time.time() - ctx.t0))
@@ -117,7 +117,7 @@ def explore(ctx, shards, increments, reserve=20):
         if big:
             usec[0] = max(3.0, min(60.0, 1e6 * sum(r["cpu_s"] for r in big) / sum(r["transitions"] for r in big)))
         if cpu > 4:
-            load = max(1.0, min(3.0, dt / max(cpu / common.NCPU, max(r["cpu_s"] for r in res))))
+            load = max(1.0, min(10.0, dt / max(cpu / common.NCPU, max(r["cpu_s"] for r in res))))
         log.append({"stage": label, "wall_s": round(dt, 1), "cpu_s": round(cpu, 1), "shards": len(items),
                     "states": sum(r["states"] for r in res), "transitions": sum(r["transitions"] for r in res)})
         common.log("lmmx: stage '%s' done in %.1fs (cpu %.0fs, predicted %.0fs): %d states, %d transitions, classes %s" % (
